@@ -52,7 +52,9 @@ func poisons() []poison {
 		{"unknown-type-url", func() *codectypes.Any {
 			return &codectypes.Any{TypeUrl: "/does.not.Exist", Value: []byte{1}}
 		}},
-		{"not-hashable-type", func() *codectypes.Any { return anyOf(&sdk.Coin{Denom: "ugrain", Amount: sdk.NewInt64Coin("ugrain", 1).Amount}) }},
+		{"not-hashable-type", func() *codectypes.Any {
+			return anyOf(&sdk.Coin{Denom: "ugrain", Amount: sdk.NewInt64Coin("ugrain", 1).Amount})
+		}},
 		{"tx-proof-garbage-tx", func() *codectypes.Any {
 			return anyOf(&evmtypes.TxExecutedProof{SerializedTX: []byte{0xde, 0xad}})
 		}},
